@@ -16,7 +16,7 @@ RULE = ("histories of ~18 steps over 1-3 proxies and 1-5 concurrently open strea
         "{0,5} x ITER_STREAM_LINGER {0,3} x both server types. distinct = (history hash, step); non-trivial = the step concerns an open stream")
 ASSUMPTIONS = ["the virtual clock starts at 1e9 (a linger stamp of 0 means 'none' in Pyro's code)", "after every client-side disconnect / oneway close the harness waits for the server-side event (10 s watchdog, expiry = inconclusive)",
                "a stream whose deadline has passed may be forgotten at any time until the next explicit housekeeping step, after which it must be gone"]
-REQUIRED_REACH = ["histories_with_failing_disconnect_hook", "items_ok", "stopiteration_ok", "generator_exception_ok", "forgotten_ok", "reconnect_continues", "linger_expired", "lifetime_expired", "table_checked", "streaming_disabled_ok", "racing_reconnects", "server_ended_connections", "housekeeping_during_fetch", "histories_under_one_correlation_id", "concurrent_streams_checked", "slow_item_streams_checked", "natural_housekeeping_ok"]
+REQUIRED_REACH = ["connected_socket_streams_ok", "histories_with_failing_disconnect_hook", "items_ok", "stopiteration_ok", "generator_exception_ok", "forgotten_ok", "reconnect_continues", "linger_expired", "lifetime_expired", "table_checked", "streaming_disabled_ok", "racing_reconnects", "server_ended_connections", "housekeeping_during_fetch", "histories_under_one_correlation_id", "concurrent_streams_checked", "slow_item_streams_checked", "natural_housekeeping_ok"]
 SHARD_TIMEOUT = {"quick": 240, "thorough": 3000}
 
 
@@ -642,6 +642,76 @@ def concurrent_phase(fx, rec, r, cfg):
         rec.violation("forgotten-stream-still-held", "after all concurrent clients finished or went away the table still holds %d stream(s)" % len(fx.daemon.streaming_responses), pay)
 
 
+def connected_socket_phase(P, rec, r, cfg, n):
+    """streams over a socket pair the application connected itself (Daemon(connected_socket=...) / Proxy(..., connected_socket=...)): there is
+    exactly one connection and no way to open a second one. Items arrive in order; a stream the client closes early is forgotten by the
+    server (its table is empty again, and asking for the closed stream's next item is an error, never an item)"""
+    import socket as _s
+    for k in range(n):
+        s1, s2 = _s.socketpair()
+        s1.settimeout(20)
+        s2.settimeout(20)
+        d = P.server.Daemon(connected_socket=s1)
+        d.register(make_service(P), "src")
+        stop = []
+        t = threading.Thread(target=lambda: d.requestLoop(loopCondition=lambda: not stop), daemon=True)
+        t.start()
+        key = "cs%d" % r.randrange(10 ** 9)
+        nitems = r.choice([3, 5, 12])
+        SPECS[key] = ([[key, i] for i in range(nitems)], False, r.choice(["gen", "iterobj", "listiter"]))
+        take = r.randrange(0, nitems)
+        pay = {"connected_socket": True, "cfg": cfg, "nitems": nitems, "take": take, "kind": SPECS[key][2]}
+        rec.case(("connsock", key, nitems, take), nontrivial=True, sample=pay if k == 0 else None)
+        bad = None
+        try:
+            p = P.client.Proxy("src", connected_socket=s2)
+            p._pyroSerializer = cfg["serializer"]
+            it = p.open(key)
+            sid = it.streamId
+            got = [next(it) for _ in range(take)]
+            if [list(x) for x in got] != [[key, i] for i in range(take)]:
+                bad = ("stream-items-differ", "items %r" % (got,))
+            it.close()
+            p.ping()          # (a request behind the close: the daemon has handled everything sent before it)
+            if not bad and sid in d.streaming_responses:
+                bad = ("forgotten-stream-still-held", "the client closed its stream after %d of %d items, the daemon (pre-connected socket: one connection, no second one possible) still holds it" % (take, nitems))
+            if not bad:
+                try:
+                    nxt = p._pyroInvoke("get_next_stream_item", [sid], {}, objectId="Pyro.Daemon")
+                    bad = ("items-after-close", "after the client closed the stream, asking for its next item delivered %r" % (nxt,))
+                except P.errors.PyroError:
+                    pass
+                except StopIteration:
+                    bad = ("items-after-close", "after the client closed the stream, asking for its next item reported an ordinary end of stream")
+            # a second stream on the same connection, read to its end
+            if not bad:
+                got = [list(x) for x in p.open(key)]
+                if got != [[key, i] for i in range(nitems)]:
+                    bad = ("stream-items-differ", "a second stream over the same pre-connected socket delivered %r" % (got,))
+                elif d.streaming_responses:
+                    bad = ("forgotten-stream-still-held", "exhausted stream still in the daemon's table")
+        except Exception as x:
+            rec.inconc("connected-socket stream case failed in the harness: %r" % (x,))
+            bad = None
+        finally:
+            stop.append(1)
+            try:
+                s2.close()
+            except Exception:
+                pass
+            t.join(10)
+            try:
+                d.close()
+            except Exception:
+                pass
+            s1.close()
+            SPECS.pop(key, None)
+        if bad:
+            rec.violation(bad[0] + ":connected-socket", bad[1], pay)
+            return
+        rec.count("connected_socket_streams_ok")
+
+
 def install_gate(fx):
     """delay point at the entry of the daemon's disconnect handling (thread server only: there the old connection's worker and the new connection's
     worker really run concurrently); armed per connection serial by the 'racing-reconnect' step"""
@@ -682,6 +752,8 @@ def run_shard(shard, rec):
                 concurrent_phase(fx, rec, r, cfg)
         if shard["servertype"] == "multiplex" and shard["streaming"] and bool(shard["lifetime"]) != bool(shard["linger"]):
             natural_housekeeping_phase(fx, vclock, rec, r, cfg, 3 if rec.tier == "quick" else 20)
+        if shard["streaming"]:
+            connected_socket_phase(P, rec, r, cfg, 2 if rec.tier == "quick" else 10)
         if shard["streaming"] and shard["linger"] and not shard["lifetime"]:
             slow_item_phase(fx, rec, r, cfg, 2 if rec.tier == "quick" else 12)
         for kind, text in fixture.take_faults():
@@ -691,7 +763,18 @@ def run_shard(shard, rec):
         fx.stop()
 
 
+def replay_connected(payload, rec):
+    P = fixture.pyro()
+    vclock = VClock()
+    import Pyro5.server
+    Pyro5.server.time = vclock
+    P.config.ITER_STREAMING = True
+    connected_socket_phase(P, rec, gen.rng(0, "replay"), payload["cfg"], 6)
+
+
 def replay(payload, rec):
+    if payload.get("connected_socket"):
+        return replay_connected(payload, rec)
     P = fixture.pyro()
     cfg = payload["cfg"]
     vclock = VClock()
